@@ -10,7 +10,10 @@ from ..core import PKG, Report
 from ..domain import RAW, RAW_NONSTR, UNKNOWN, is_esc
 
 LEVEL = ("path rules over the 14 builders and their convert_value implementations (every path of the function is walked with the "
-         "decisions taken on it, calls to the private helpers of its region are walked in place): the default flows into convert_value, on every path a PropertyError result is returned and the "
+         "decisions taken on it; the functions its calls go to - private helpers of the module, of the class or of a base class in another "
+         "module, nested functions, any function that is handed the value being followed - are walked in place, a loop over a generator "
+         "expression / comprehension / generator of the region runs with the element the source writes, a receiver looked up in a table of "
+         "classes is each class it may be): the default flows into convert_value, on every path a PropertyError result is returned and the "
          "class is registered / the property returned only after the result was tested (no path returns a property past the conversion "
          "unless it returns what another builder built or no default is declared on it), the property stores the converted Value; "
          "wherever property_from_data or a builder hands the property on to a builder, the declared default goes with it (the default "
@@ -18,8 +21,9 @@ LEVEL = ("path rules over the 14 builders and their convert_value implementation
          "convert_value rejects by default (every path without a positive type / membership / equality decision about the value "
          "ends in an error, every accepting return lies only on paths with such a decision, bool excluded wherever int is "
          "accepted); python_code is built not pasted (label analysis); the $ref route and the allOf merge route re-convert with "
-         "the receiving class on every path that reaches the evolve(); to_string returns default.python_code on every path with "
-         "a default.")
+         "the receiving class on every path that reaches the place where the property gets its default (evolve keyword or store); "
+         "to_string returns default.python_code on every path with a default; a property's default is never written in place on an "
+         "object the writing function did not make itself (shared property objects).")
 
 PERMISSIVE = {"StringProperty", "AnyProperty"}            # documented permissive kinds
 NO_DEFAULT = {"ListProperty", "ModelProperty", "FileProperty"}  # kinds without defaults: convert_value returns None / error
@@ -31,6 +35,7 @@ _NONNULL_CALLS = {"str", "repr", "format", "join", "float", "int", "bool"}
 ACCEPTING = {"built", "conv", "valid", "other", "nonnull", "param", "deleg", "schema"}
 _BUILDER_ENTRIES = {"build", "property_from_data"}   # what hands a schema / a default on to (another) builder
 _COPIES = {"model_copy", "copy", "deepcopy", "evolve", "replace"}   # X.model_copy(...), evolve(X, ...), copy(X): X again, with overrides
+_SAME_ELEMENTS = {"iter", "list", "tuple", "set", "frozenset", "sorted", "reversed", "chain", "enumerate"}   # iterating the result yields the argument's elements
 _PREDICATES = {"isinstance", "issubclass", "callable", "hasattr", "all", "any", "bool"}   # builtins whose result is a truth value
 
 
@@ -52,14 +57,19 @@ _PREDICATES = {"isinstance", "issubclass", "callable", "hasattr", "all", "any", 
 #          test written in the `if`; forgotten as soon as a name the test mentions is re-bound
 # Infeasible combinations are pruned (None is no error; two disjoint builtin types; bool without int).  Loops run to a fixpoint
 # over the finite state set, any statement of a try body may jump to its handlers.
-# A call to a private helper of the function's region (astutil.region: same module, `_name`, called by plain name / self. / cls. /
-# ClassName.) is walked in place: the helper's body runs on the caller's path with its parameters bound to the arguments (a parameter
+# A call to a helper (class Helpers: what the call resolves to - a private function of this or another module, a private method of the
+# class or of one of its base classes, a nested function; any other function of the repository only when it is handed the value that
+# is being followed) is walked in place: the helper's body runs on the caller's path with its parameters bound to the arguments (a parameter
 # that receives a plain name and is not re-bound in the helper simply IS that name, every other local of the helper gets a name of
 # its own), each of its returns continues the caller's path with what it returned.  So a rule sees the same paths, decisions and
 # statements whether a piece of the function was extracted into a helper or not.
+# Further things a local may stand for travel with the state: elems (what iterating it yields: `for x in <local bound to a generator
+# expression / comprehension / display / generator call>` runs the body with x = the element expression, `next(<those>, d)` is an
+# element or d), classes (the classes of the repository a computed receiver may be: looked up in a module-level table, chosen by a
+# conditional expression; narrowed by `is` / `==` / `in` / issubclass tests), means (the choice `a or b` / field / name it was bound to).
 
 class PState:
-    __slots__ = ("kind", "taint", "facts", "tfacts", "hist", "ev", "errs", "oks", "alias", "nul", "cond")
+    __slots__ = ("kind", "taint", "facts", "tfacts", "hist", "ev", "errs", "oks", "alias", "nul", "cond", "elems", "classes", "means")
 
     def __init__(self) -> None:
         self.kind: dict[str, tuple[str, int | None]] = {}
@@ -73,6 +83,10 @@ class PState:
         self.alias: frozenset[str] = frozenset()    # names that hold the subject (the value under conversion) itself
         self.nul = False                            # on this path the subject was found to be None / to be a Value already
         self.cond: dict[str, tuple[str, ast.expr]] = {}   # local -> (text, expression) of the decision it was bound to
+        self.elems: dict[str, ast.expr] = {}        # local -> the expression that says what iterating it yields (a generator
+        #                                             expression, a comprehension, a display, a call of a generator of the region)
+        self.classes: dict[str, frozenset[str]] = {}   # local -> the classes / bound builders (`K`, `K.build`) it may be
+        self.means: dict[str, ast.expr] = {}        # local -> the choice it was bound to (`a or b`, a field, another name): it stands for it
 
     def copy(self) -> "PState":
         s = PState()
@@ -87,12 +101,16 @@ class PState:
         s.alias = self.alias
         s.nul = self.nul
         s.cond = dict(self.cond)
+        s.elems = dict(self.elems)
+        s.classes = dict(self.classes)
+        s.means = dict(self.means)
         return s
 
     def key(self) -> tuple:
         return (tuple(sorted(self.kind.items(), key=lambda kv: kv[0])), self.taint, tuple(sorted(self.facts.items())), self.tfacts,
                 self.hist, self.ev, self.errs, self.oks, self.alias, self.nul,
-                tuple(sorted((n, t) for n, (t, _) in self.cond.items())))
+                tuple(sorted((n, t) for n, (t, _) in self.cond.items())), tuple(sorted((n, id(e)) for n, e in self.elems.items())),
+                tuple(sorted(self.classes.items())), tuple(sorted((n, id(e)) for n, e in self.means.items())))
 
     def said(self, text: str, truth: bool) -> bool:
         return (text, truth) in self.hist
@@ -130,7 +148,7 @@ def _arms(e: ast.expr) -> list[ast.expr]:
 
 class _Unwalrus(ast.NodeTransformer):
     def visit_NamedExpr(self, n: ast.NamedExpr) -> ast.AST:
-        return n.target
+        return ast.copy_location(ast.Name(id=n.target.id, ctx=ast.Load()), n.target)
 
 
 class _Rename(ast.NodeTransformer):
@@ -162,14 +180,150 @@ class _Subst(ast.NodeTransformer):
         return self.m[n.id] if isinstance(n.ctx, ast.Load) and n.id in self.m else n
 
 
-def _helpers_of(ix: Any, f: Any, depth: int = 3) -> dict[str, Any]:
-    """private helpers of f's region by name (a name that is defined twice resolves to nothing)"""
-    by: dict[str, list[Any]] = {}
-    for h in region(ix, f, depth)[1:]:
-        if h.qual != f.qual and not isinstance(h.node, ast.AsyncFunctionDef) and not any(
-                isinstance(n, (ast.Yield, ast.YieldFrom)) for n in ast.walk(h.node)):
-            by.setdefault(h.name, []).append(h)
-    return {n: hs[0] for n, hs in by.items() if len(hs) == 1}
+class Helpers:
+    """the functions of the repository that f's work may have been moved to, found from the calls themselves: for every call made in f
+    (and, transitively, in what was found) the function it goes to - a plain name through the module's own definitions, its imports and
+    the functions nested in the caller, `self.` / `cls.` through the classes the owner inherits from (a helper shared by sibling kinds
+    sits in their base class, in another module), `Name.attr` through whatever Name resolves to.  Functions with a role of their own
+    (builders, convert_value, error constructors) are never helpers.  A helper whose name starts with `_` is walked in place wherever it
+    is called; any other function only where it is handed the value that is being followed (the declared default, the schema carrying
+    it, something derived from the value under conversion).  Generators are kept apart: they are walked where they are iterated."""
+
+    def __init__(self, ix: Any, f: Any, owner: Any = None, depth: int = 3, roles: frozenset[str] = frozenset()) -> None:
+        self.targets: dict[int, tuple[Any, bool]] = {}       # id(call node) -> (function, private?)
+        self.funcs: list[Any] = []                           # every function found (f itself excluded)
+        self.generators: set[str] = set()                    # quals of those that are generators
+        owner = owner if owner is not None else f.cls
+        nested: dict[str, dict[str, Any]] = {}
+        for g in ix.all_functions:
+            if g.parent is not None:
+                nested.setdefault(g.parent.qual, {})[g.name] = g
+        seen = {f.qual}
+        frontier = [f]
+        for _ in range(depth + 1):
+            nxt: list[Any] = []
+            for g in frontier:
+                for c in calls_in(g.node):
+                    h = self._resolve(ix, c, g, owner, nested, roles)
+                    if h is None or h.qual == f.qual or isinstance(h.node, ast.AsyncFunctionDef):
+                        continue
+                    self.targets[id(c)] = (h, h.name.startswith("_") and not h.name.startswith("__"))
+                    if h.qual not in seen:
+                        seen.add(h.qual)
+                        self.funcs.append(h)
+                        nxt.append(h)
+                        if any(isinstance(n, (ast.Yield, ast.YieldFrom)) for n in _own_nodes(h.node)):
+                            self.generators.add(h.qual)
+            frontier = nxt
+
+    @staticmethod
+    def _resolve(ix: Any, c: ast.Call, g: Any, owner: Any, nested: dict[str, dict[str, Any]], roles: frozenset[str]) -> Any:
+        cn = call_name(c)
+        head, _, last = cn.rpartition(".")
+        if not last.isidentifier() or last in roles or last in _BUILDER_ENTRIES or last in ERROR_CLASSES or last in ERROR_ONLY_HELPERS \
+                or last == "convert_value" or last == "Value":
+            return None
+        if head == "":
+            k = g
+            while k is not None:       # a function nested in the caller or in one of the functions that enclose the caller
+                if last in nested.get(k.qual, {}):
+                    return nested[k.qual][last]
+                k = k.parent
+            r = ix.resolve(g.module, last)
+            return r[1] if r is not None and r[0] == "func" else None
+        if head in ("self", "cls"):
+            for k in (owner, g.cls):
+                h = ix.find_method(k, last) if k is not None else None
+                if h is not None:
+                    return h
+            return None
+        if all(x.isidentifier() for x in head.split(".")):
+            r = ix.resolve(g.module, cn)
+            if r is not None:
+                return r[1] if r[0] == "func" else None
+        # a method of an object: of the class that is constructed right there (K(...).m()), else - private names only - the one method of
+        # that name the owner's classes / the package's classes define
+        recv = c.func.value if isinstance(c.func, ast.Attribute) else None
+        if isinstance(recv, ast.Call):
+            rn = call_name(recv)
+            k = owner if rn == "cls" else None
+            if k is None and all(x.isidentifier() for x in rn.split(".")):
+                r = ix.resolve(g.module, rn)
+                k = r[1] if r is not None and r[0] == "class" else None
+            if k is not None:
+                return ix.find_method(k, last)
+        if last.startswith("_") and not last.startswith("__"):
+            for pool in ([m for k in (owner, g.cls) if k is not None for m in [ix.find_method(k, last)] if m is not None],
+                         [k.methods[last] for k in ix.classes.values() if last in k.methods]):
+                quals = {m.qual for m in pool}
+                if len(quals) == 1:
+                    return pool[0]
+                if quals:
+                    return None
+        return None
+
+    def values(self) -> list[Any]:
+        return list(self.funcs)
+
+
+def _own_nodes(fn: ast.AST) -> list[ast.AST]:
+    """the nodes of a function that are not inside a function / lambda / class nested in it"""
+    out: list[ast.AST] = []
+    stack = list(ast.iter_child_nodes(fn))
+    while stack:
+        n = stack.pop()
+        out.append(n)
+        if not isinstance(n, (ast.FunctionDef, ast.AsyncFunctionDef, ast.Lambda, ast.ClassDef)):
+            stack += list(ast.iter_child_nodes(n))
+    return out
+
+
+def _helpers_of(ix: Any, f: Any, owner: Any = None, depth: int = 3) -> Helpers:
+    return Helpers(ix, f, owner, depth)
+
+
+class World:
+    """what the names that are no locals stand for, in the modules of a function and of its helpers: classes of the repository and
+    module-level constants (a table of classes is read where it is defined)"""
+
+    def __init__(self, ix: Any, f: Any, helpers: "Helpers | None" = None) -> None:
+        self.ix = ix
+        self.mods: list[Any] = []
+        for g in [f, *(helpers.funcs if helpers is not None else [])]:
+            if all(g.module is not m for m in self.mods):
+                self.mods.append(g.module)
+
+    def _resolve(self, dotted_name: str) -> tuple[str, Any] | None:
+        for m in self.mods:
+            r = self.ix.resolve(m, dotted_name)
+            if r is not None:
+                return r
+        return None
+
+    def cls(self, dotted_name: str) -> Any:
+        r = self._resolve(dotted_name)
+        return r[1] if r is not None and r[0] == "class" else None
+
+    def value(self, dotted_name: str) -> ast.expr | None:
+        r = self._resolve(dotted_name)
+        if r is not None and r[0] == "var":
+            mod, n = r[1]
+            return mod.variables.get(n)
+        if r is not None and r[0] == "classvar":
+            found = self.ix.find_classvar(r[1][0], r[1][1])
+            return found[1] if found is not None else None
+        return None
+
+    def builder(self, cand: str) -> Any:
+        """the function a candidate `K` (called as K.build) / `K.build` (called as it is) goes to"""
+        k = self.cls(cand[:-len(".build")] if cand.endswith(".build") else cand)
+        return self.ix.find_method(k, "build") if k is not None else None
+
+    def subclass(self, a: str, b: str) -> bool | None:
+        ka, kb = self.cls(a), self.cls(b)
+        if ka is None or kb is None:
+            return None
+        return any(k.qual == kb.qual for k in self.ix.mro(ka))
 
 
 def _arg_map(c: ast.Call, h: Any) -> dict[str, ast.expr]:
@@ -192,22 +346,33 @@ def _arg_map(c: ast.Call, h: Any) -> dict[str, ast.expr]:
 
 class Paths:
     def __init__(self, fn: ast.FunctionDef, tainted: set[str] = frozenset(), source: Callable[[ast.AST], bool] | None = None,
-                 source_nonnull: bool = False, subject: str | None = None, helpers: dict[str, Any] | None = None,
-                 schema: str | None = None, callee_of: Callable[[ast.Call], Any] | None = None) -> None:
+                 source_nonnull: bool = False, subject: str | None = None, helpers: "Helpers | None" = None,
+                 schema: str | None = None, callee_of: Callable[[ast.Call], Any] | None = None, world: "World | None" = None,
+                 mark: Callable[[ast.AST], str | None] | None = None) -> None:
         """subject  the parameter whose value is being converted (R13.2) / that is the declared default (R13.1): what is decided about
                     it under any of its names counts as decided about the value; an expression `source` accepts is the subject too
-           helpers  the private helpers of fn's region (_helpers_of): calls to them are walked in place
+           helpers  the functions fn's calls go to (Helpers): calls to them are walked in place
            schema   the parameter that is the schema carrying the declared default
            callee_of  the builder a call X.build(...) / property_from_data(...) goes to (its parameter names tell which argument is
-                    the default / the schema)"""
+                    the default / the schema)
+           mark     a role of the caller's own: an expression it names holds that role (as its kind), and so does every local,
+                    parameter and helper result the value travels through
+           world    what global names stand for (World): a receiver that is computed (looked up in a table of classes, chosen by a
+                    conditional expression) is each of the classes it may be"""
         self.fn = fn
         a = fn.args
         self.params = {x.arg for x in [*a.posonlyargs, *a.args, *a.kwonlyargs]}
         self.source = source or (lambda n: False)
         self.source_nonnull = source_nonnull
-        self.helpers = helpers or {}
+        self.helpers = helpers
         self.callee_of = callee_of or (lambda c: None)
-        self.delegs: dict[int, tuple[ast.Call, set[tuple[bool, str, str]]]] = {}   # builder call -> (node, {(default handed on?, parameter, argument)})
+        self.world = world
+        self.mark = mark
+        self.receivers: dict[int, set[str]] = {}   # conversion call -> the kinds its receiver held when it was walked
+        self._keep: list[ast.AST] = []            # synthesised nodes stay alive (their id() keys _orig)
+        self._yield: list[list[tuple[PState, ast.expr | None]]] = []   # what the generator being walked yields, per path
+        # builder call -> (node, {(default handed on?, parameter, argument, builder when the receiver is computed | None)})
+        self.delegs: dict[int, tuple[ast.Call, set[tuple[bool, str, str, str | None]]]] = {}
         self.sites: dict[int, tuple[ast.Call, bool]] = {}    # conversion call -> (node, argument derived from the source?)
         self.walked: dict[int, list[ast.Call]] = {}          # conversion call -> the call as it was walked (in a helper: in the
         #                                                      caller's names where parameters were bound to plain names)
@@ -249,6 +414,10 @@ class Paths:
     def kind_of(self, e: ast.AST | None, st: PState) -> tuple[str, int | None]:
         if e is None or _is_none(e):
             return ("none", None)
+        if self.mark is not None and not isinstance(e, ast.Name):
+            m = self.mark(e)
+            if m is not None:
+                return (m, None)
         if isinstance(e, ast.Constant) or isinstance(e, (ast.JoinedStr, ast.Tuple, ast.List, ast.Dict, ast.Set)):
             return ("nonnull", None)
         if isinstance(e, ast.Name):
@@ -268,6 +437,9 @@ class Paths:
             if last == "cast" and len(e.args) == 2:
                 return self.kind_of(e.args[1], st)
             if last in _BUILDER_ENTRIES and (last != "build" or isinstance(e.func, ast.Attribute)):
+                return ("deleg", self._deleg(e, st))
+            cands = self.classes_of(e.func, st) if isinstance(e.func, ast.Name) else None
+            if cands and all(k.endswith(".build") for k in cands):      # a builder that was picked first and is called now
                 return ("deleg", self._deleg(e, st))
             if self._keeps_default(e, last, st):
                 return ("schema", None)
@@ -294,32 +466,104 @@ class Paths:
 
     def _is_decl(self, e: ast.expr | None, st: PState) -> bool:
         """is e the declared default itself"""
-        if isinstance(e, ast.IfExp):
-            return self._is_decl(e.body, st) and self._is_decl(e.orelse, st)
+        if isinstance(e, ast.IfExp):     # each arm, wherever its test can come out that way in this state
+            t, f = self._branch(e.test, st)
+            return all(self._is_decl(e.body, x) for x in t) and all(self._is_decl(e.orelse, x) for x in f)
         return e is not None and self._is_alias(e, st)
 
     def _deleg(self, c: ast.Call, st: PState) -> int:
-        """a call that hands the property over to (another) builder: is the declared default handed over with it"""
+        """a call that hands the property over to (another) builder: is the declared default handed over with it.  A receiver that is
+        computed is each of the classes it may be in this state; what is handed over is then asked once per class, in the state in
+        which the receiver is that class (an argument may depend on which one it is)"""
         k = self.oid(c)
         h = self.callee_of(self.origin(c))
-        names = {x.arg for x in [*h.node.args.posonlyargs, *h.node.args.args, *h.node.args.kwonlyargs]} if h is not None else {kw.arg for kw in c.keywords}
-        amap = _arg_map(c, h) if h is not None else {kw.arg: kw.value for kw in c.keywords if kw.arg}
-        if "default" in names:
-            arg = amap.get("default")
-            verdict = (arg is not None and self._is_decl(arg, st), "default", norm(arg) if arg is not None else "<not given>")
-        elif "data" in names:
-            arg = amap.get("data")
-            verdict = (arg is not None and self.kind_of(arg, st)[0] == "schema", "data", norm(arg) if arg is not None else "<not given>")
-        else:
-            verdict = (False, "?", "<no default / data parameter>")
-        self.delegs.setdefault(k, (self.origin(c), set()))[1].add(verdict)
+        cases: list[tuple[Any, PState, str | None]] = [(h, st, None)]
+        recv = c.func.value if isinstance(c.func, ast.Attribute) else c.func
+        cands = self.classes_of(recv, st) if h is None and self.world is not None else None
+        if cands:
+            cases = []
+            for cand in sorted(cands):
+                s_k = st
+                if isinstance(recv, ast.Name):
+                    s_k = st.copy()
+                    s_k.classes[recv.id] = frozenset({cand})
+                hb = self.world.builder(cand)
+                cases.append((hb, s_k, (f"{hb.cls.name}.{hb.name}" if hb is not None and hb.cls is not None else
+                                        cand if cand.endswith(".build") else cand + ".build")))
+        for h, s_k, target in cases:
+            names = {x.arg for x in [*h.node.args.posonlyargs, *h.node.args.args, *h.node.args.kwonlyargs]} if h is not None else {kw.arg for kw in c.keywords}
+            amap = _arg_map(c, h) if h is not None else {kw.arg: kw.value for kw in c.keywords if kw.arg}
+            if "default" in names:
+                arg = amap.get("default")
+                verdict = (arg is not None and self._is_decl(arg, s_k), "default", norm(arg) if arg is not None else "<not given>")
+            elif "data" in names:
+                arg = amap.get("data")
+                verdict = (arg is not None and self.kind_of(arg, s_k)[0] == "schema", "data", norm(arg) if arg is not None else "<not given>")
+            else:
+                verdict = (False, "?", "<no default / data parameter>")
+            self.delegs.setdefault(k, (self.origin(c), set()))[1].add((*verdict, target))
         return k
+
+    def classes_of(self, e: ast.AST | None, st: PState, depth: int = 0) -> frozenset[str] | None:
+        """the classes of the repository (`K`) / their bound attributes (`K.build`) e may be; None: not known to be one"""
+        w = self.world
+        if w is None or e is None or depth > 6:
+            return None
+        if isinstance(e, ast.Call) and call_name(e).rsplit(".", 1)[-1] == "cast" and len(e.args) == 2:
+            return self.classes_of(e.args[1], st, depth + 1)
+        if isinstance(e, ast.Name):
+            if e.id in st.classes:
+                return st.classes[e.id]
+            if e.id in st.kind and st.kind[e.id][0] != "param":
+                return None      # a local that holds something else
+            k = w.cls(e.id)
+            return frozenset({k.name}) if k is not None else None
+        if isinstance(e, ast.Attribute):
+            base = self.classes_of(e.value, st, depth + 1)
+            if base and not any("." in b for b in base):
+                return frozenset(f"{b}.{e.attr}" for b in base)
+            k = w.cls(norm(e)) if all(x.isidentifier() for x in norm(e).split(".")) else None
+            return frozenset({k.name}) if k is not None else None
+        if isinstance(e, (ast.IfExp, ast.BoolOp)):
+            arms = [self.classes_of(a, st, depth + 1) for a in ([e.body, e.orelse] if isinstance(e, ast.IfExp) else e.values)]
+            return frozenset().union(*arms) if all(arms) else None
+        table = fallback = None     # an element of a table: TABLE[key] / TABLE.get(key[, fallback])
+        if isinstance(e, ast.Subscript):
+            table = e.value
+        elif isinstance(e, ast.Call) and isinstance(e.func, ast.Attribute) and e.func.attr == "get" and 1 <= len(e.args) <= 2 and not e.keywords:
+            table, fallback = e.func.value, (e.args[1] if len(e.args) == 2 else None)
+        if table is None:
+            return None
+        vals = self._table_values(table, st)
+        if not vals:
+            return None
+        arms = [self.classes_of(v, st, depth + 1) for v in [*vals, *([fallback] if fallback is not None and not _is_none(fallback) else [])]]
+        return frozenset().union(*arms) if all(arms) else None
+
+    def _table_values(self, t: ast.AST, st: PState, depth: int = 0) -> list[ast.expr] | None:
+        """the values a table holds: a dict display (or dict(...) with keywords), written where it is used or under a global name"""
+        if isinstance(t, ast.Dict):
+            return list(t.values) if all(k is not None for k in t.keys) else None
+        if isinstance(t, ast.Call) and call_name(t) in ("dict", "MappingProxyType", "types.MappingProxyType", "frozendict"):
+            if len(t.args) == 1 and not t.keywords:
+                return self._table_values(t.args[0], st, depth + 1)
+            return [kw.value for kw in t.keywords] if not t.args and t.keywords and all(kw.arg for kw in t.keywords) else None
+        if isinstance(t, (ast.Name, ast.Attribute)) and depth < 3 and self.world is not None:
+            txt = norm(t)
+            if isinstance(t, ast.Name) and t.id in st.kind:     # a local: the table display it was bound to
+                return self._table_values(st.means[t.id], st, depth + 1) if t.id in st.means else None
+            if all(x.isidentifier() for x in txt.split(".")):
+                v = self.world.value(txt)
+                return self._table_values(v, st, depth + 1) if v is not None else None
+        return None
 
     def _site(self, c: ast.Call, st: PState) -> int:
         k = self.oid(c)
         if all(x is not c for x in self.walked.setdefault(k, [])):
             self.walked[k].append(c)
         self.sites[k] = (self.origin(c), self.sites.get(k, (c, False))[1] or (bool(c.args) and self.derived(c.args[0], st)))
+        if isinstance(c.func, ast.Attribute):
+            self.receivers.setdefault(k, set()).add(self.kind_of(c.func.value, st)[0])
         return k
 
     def returned(self, st_node: ast.stmt | None, st: PState) -> tuple[str, int | None]:
@@ -399,24 +643,34 @@ class Paths:
             t, f = self._branch(value.test, s)
             out = []
             for states, arm in ((t, value.body), (f, value.orelse)):
-                n2 = ast.copy_location(ast.Return(value=arm), n)
+                n2 = self._made(ast.Return(value=arm), n)     # the arm is source text: it is looked at like any statement
                 self._orig[id(n2)] = self.origin(n)
-                self._synth.add(id(n2))
                 for x in states:
                     out += self._simple(n2, x, loop, depth + 1)
             return out
+        if isinstance(n, ast.Return) and depth < 4:
+            alts = self._next_alts(value, s)
+            if alts is not None:     # return next(<elements>, fallback)
+                out = []
+                for x, v in alts:
+                    n2 = self._made(ast.Return(value=v), n)
+                    self._orig[id(n2)] = self.origin(n)
+                    out += self._simple(n2, x, loop, depth + 1)
+                return out
         assigned = {id(v) for v in _arms(value)} if isinstance(n, (ast.Assign, ast.AnnAssign)) and value is not None else set()
-        whole = value if isinstance(n, (ast.Return, ast.Expr)) and isinstance(value, ast.Call) and self._target(value) is not None \
+        whole = value if isinstance(n, (ast.Return, ast.Expr)) and isinstance(value, ast.Call) and self._target(value, s) is not None \
             and depth < 4 else None
         rest: list[ast.expr] | None = None
         if whole is None and isinstance(n, ast.Return) and isinstance(value, ast.Tuple) and value.elts and isinstance(value.elts[0], ast.Call) \
-                and self._target(value.elts[0]) is not None and depth < 4:
+                and self._target(value.elts[0], s) is not None and depth < 4:
             whole, rest = value.elts[0], value.elts[1:]     # return helper(...), x: what the helper returned is the first element
         states = [s]
-        for c in [c for c in calls_in(n) if c is not whole and id(c) not in assigned and self._target(c) is not None]:
+        for c, h in [(c, self._target(c, s)) for c in calls_in(n) if c is not whole and id(c) not in assigned]:
+            if h is None:
+                continue
             nxt: list[PState] = []
             for x in states:
-                for s2, rv in self._inline(c, x):     # what the call evaluates to on this path is kept under the call's own name
+                for s2, rv in self._inline(c, x, h):     # what the call evaluates to on this path is kept under the call's own name
                     k, d, al = self.kind_of(rv, s2), self.derived(rv, s2), self._is_alias(rv, s2)
                     s2 = s2.copy()
                     self._bind(s2, f"@{id(c)}", k, d, al)
@@ -426,7 +680,7 @@ class Paths:
             return [y for x in states for y in self._leaf(n, x, loop)]
         out = []
         for x in states:
-            for s2, rv in self._inline(whole, x):
+            for s2, rv in self._inline(whole, x, self._target(whole, s)):
                 rv = rv if rv is not None else ast.Constant(value=None)
                 if rest is not None:
                     rv = ast.Tuple(elts=[rv, *rest], ctx=ast.Load())
@@ -446,6 +700,14 @@ class Paths:
             self._inner.add(id(n))
             self._ret[-1].append((s, n.value))
             return []
+        if self._yield and isinstance(n, (ast.Expr, ast.Assign, ast.AnnAssign)) and isinstance(n.value, (ast.Yield, ast.YieldFrom)):
+            if isinstance(n.value, ast.Yield):
+                self._yield[-1].append((s, n.value.value))
+            else:
+                sub = self._iter_elems(n.value.value, s)
+                self._yield[-1] += sub if sub is not None else [(s, None)]
+            if isinstance(n, ast.Expr):
+                return [s]
         if isinstance(n, (ast.Return, ast.Raise)):
             return []
         if isinstance(n, ast.Break):
@@ -467,14 +729,24 @@ class Paths:
         return [s]
 
     # -- helpers walked in place ----------------------------------------------------------------------------------------------------
-    def _target(self, c: ast.Call) -> Any:
-        cn = call_name(c)
-        head, _, last = cn.rpartition(".")
-        h = self.helpers.get(last)
-        if h is None or not (head in ("", "self", "cls") or head[:1].isupper()) or h.node is self.fn or h.qual in self._active \
-                or len(self._active) >= 3:
+    def _target(self, c: ast.Call, s: PState | None = None) -> Any:
+        """the helper this call is walked into (None: the call is not followed)"""
+        if self.helpers is None:
+            return None
+        h, private = self.helpers.targets.get(self.oid(c), (None, False))
+        if h is None or h.node is self.fn or h.qual in self._active or len(self._active) >= 3 or h.qual in self.helpers.generators:
+            return None
+        if not private and not (s is not None and any(self._followed(a, s) for a in [*c.args, *[kw.value for kw in c.keywords]])):
             return None
         return h
+
+    def _followed(self, e: ast.expr, s: PState) -> bool:
+        """is e (a part of) what this walk follows: the subject, something derived from it, the schema that declares the default, a
+        conversion result"""
+        if isinstance(e, ast.Starred):
+            e = e.value
+        return self.derived(e, s) or self._is_alias(e, s) or (
+            isinstance(e, ast.Name) and s.kind.get(e.id, ("other", None))[0] in ("schema", "conv", "valid"))
 
     def _expand(self, c: ast.Call, h: Any) -> tuple[ast.FunctionDef, list[tuple[str, ast.expr | None]]]:
         """a copy of the helper for this call site: a parameter that receives a plain name and is never re-bound is that name, every
@@ -517,9 +789,8 @@ class Paths:
         self._expansions[key] = (fn, binds)
         return fn, binds
 
-    def _inline(self, c: ast.Call, s: PState) -> list[tuple[PState, ast.expr | None]]:
-        """walk the helper this call goes to; (state, returned expression | None) for every path that comes back"""
-        h = self._target(c)
+    def _inline(self, c: ast.Call, s: PState, h: Any) -> list[tuple[PState, ast.expr | None]]:
+        """walk the helper h this call goes to; (state, returned expression | None) for every path that comes back"""
         fn, binds = self._expand(c, h)
         s = self._bind_params(s, binds)
         self._active.append(h.qual)
@@ -533,10 +804,11 @@ class Paths:
         """the state in which a helper walked in place starts: its parameters hold what the arguments are in the caller's state"""
         s = s.copy()
         vals = [(nm, (self.kind_of(arg, s), self.derived(arg, s), self._is_alias(arg, s)) if arg is not None else (("other", None), False, False),
-                 self._decision(arg, s)) for nm, arg in binds]
-        for nm, (k, d, al), dec in vals:
+                 self._decision(arg, s), arg, self.classes_of(arg, s), self._elems_expr(arg, s)) for nm, arg in binds]
+        for nm, (k, d, al), dec, arg, cl, el in vals:
             self._bind(s, nm, k, d, al)
             self._note(s, nm, dec, {nm})
+            self._remember(s, nm, arg, cl, el)
         return s
 
     # -- decisions that were given a name ------------------------------------------------------------------------------------------
@@ -592,10 +864,22 @@ class Paths:
                 exits += f
                 body_in = t
             else:
-                b = h.copy()
-                self._assign_target(b, n.target, ("other", None), self.derived(n.iter, b))
+                elems = self._iter_elems(n.iter, h)
                 exits.append(h)
-                body_in = [b]
+                if elems is None:
+                    b = h.copy()
+                    self._assign_target(b, n.target, ("other", None), self.derived(n.iter, b))
+                    body_in = [b]
+                else:     # what the loop variable holds is written in the source: the body runs with `target = <element>`
+                    body_in = []
+                    for s2, el in elems:
+                        if el is None:
+                            s2 = s2.copy()
+                            self._assign_target(s2, n.target, ("other", None), self.derived(n.iter, s2))
+                            body_in.append(s2)
+                        else:
+                            body_in += self._assign(s2, [n.target], el)
+                    body_in = _dedupe(body_in)
             lc: dict = {"break": [], "continue": []}
             outs = self._block(n.body, body_in, lc)
             work += outs + lc["continue"]
@@ -604,6 +888,101 @@ class Paths:
         if n.orelse:
             exits = self._block(n.orelse, exits, outer)
         return _dedupe(exits + brk)
+
+    def _iter_elems(self, it: ast.expr, s: PState, depth: int = 0) -> list[tuple[PState, ast.expr | None]] | None:
+        """what iterating `it` yields in state s: (state in which the element is produced, element expression | None = not known) per
+        way an element comes about; None when the elements of `it` are not written in the source (a field, a parameter).  A local that
+        was bound to a generator expression / comprehension / display / generator call is that expression; a comprehension's element
+        is produced with its own loop variables bound and its conditions answered yes; a generator of the region is walked in place
+        and yields what its `yield`s say"""
+        if depth > 4:
+            return None
+        if isinstance(it, ast.Name):
+            e = s.elems.get(it.id)
+            return self._iter_elems(e, s, depth + 1) if e is not None else None
+        if isinstance(it, (ast.Tuple, ast.List, ast.Set)):
+            out: list[tuple[PState, ast.expr | None]] = []
+            for e in it.elts:
+                if isinstance(e, ast.Starred):
+                    sub = self._iter_elems(e.value, s, depth + 1)
+                    out += sub if sub is not None else [(s, None)]
+                else:
+                    out.append((s, e))
+            return out
+        if isinstance(it, (ast.GeneratorExp, ast.ListComp, ast.SetComp)):
+            cur = [s]
+            for g in it.generators:
+                nxt: list[PState] = []
+                for x in cur:
+                    inner = self._iter_elems(g.iter, x, depth + 1)
+                    if inner is None:
+                        b = x.copy()
+                        self._assign_target(b, g.target, ("other", None), self.derived(g.iter, b))
+                        got = [b]
+                    else:
+                        got = []
+                        for s2, el in inner:
+                            if el is None:
+                                s2 = s2.copy()
+                                self._assign_target(s2, g.target, ("other", None), self.derived(g.iter, s2))
+                                got.append(s2)
+                            else:
+                                got += self._assign(s2, [g.target], el)
+                    for cond in g.ifs:
+                        got = [y for z in got for y in self._branch(cond, z)[0]]
+                    nxt += got
+                cur = _dedupe(nxt)
+            return [(x, it.elt) for x in cur]
+        if isinstance(it, ast.Call):
+            last = call_name(it).rsplit(".", 1)[-1]
+            if last in _SAME_ELEMENTS and it.args:
+                subs = [self._iter_elems(a, s, depth + 1) for a in (it.args if last == "chain" else it.args[:1])]
+                if any(x is None for x in subs):
+                    return None
+                flat = [p for x in subs for p in x]
+                if last == "enumerate":     # (index, element)
+                    flat = [(x, self._made(ast.Tuple(elts=[ast.Constant(value=0), el], ctx=ast.Load()), it) if el is not None else None)
+                            for x, el in flat]
+                return flat
+            h = self._generator(it)
+            if h is not None:
+                fn, binds = self._expand(it, h)
+                s2 = self._bind_params(s, binds)
+                self._active.append(h.qual)
+                self._ret.append([])
+                self._yield.append([])
+                outs = self._block(fn.body, [s2], None)
+                ys = self._yield.pop()
+                self._ret.pop()
+                self._active.pop()
+                return ys
+        return None
+
+    def _made(self, n: ast.AST, like: ast.AST) -> Any:
+        """a synthesised node: located like the node it stands for, kept alive"""
+        ast.copy_location(n, like)
+        ast.fix_missing_locations(n)
+        self._keep.append(n)
+        return n
+
+    def states_at(self, n: ast.AST, s: PState, target: ast.AST) -> list[PState]:
+        """the states in which the part `target` of statement n is evaluated when the statement starts in state s: inside a conditional
+        expression the arm is evaluated with its test answered accordingly, a later operand of and / or with the earlier ones answered"""
+        chain = _chain_to(n, target)
+        if chain is None:
+            return []
+        states = [s]
+        for parent, child in zip(chain, chain[1:]):
+            if isinstance(parent, ast.IfExp) and child is not parent.test:
+                split = [self._branch(parent.test, x) for x in states]
+                states = [y for t, f_ in split for y in (t if child is parent.body else f_)]
+            elif isinstance(parent, ast.BoolOp):
+                side = 0 if isinstance(parent.op, ast.And) else 1
+                for v in parent.values:
+                    if v is child:
+                        break
+                    states = [y for x in states for y in self._branch(v, x)[side]]
+        return states
 
     def _assign(self, s: PState, targets: list[ast.expr], value: ast.expr, depth: int = 0) -> list[PState]:
         if isinstance(value, ast.IfExp):   # x = A if T else B  is  if T: x = A  else: x = B
@@ -614,9 +993,15 @@ class Paths:
             for x in f:
                 out += self._assign(x, targets, value.orelse, depth)
             return out
-        if isinstance(value, ast.Call) and depth < 4 and self._target(value) is not None:   # x = helper(...): walked in place
+        alts = self._next_alts(value, s) if depth < 4 else None
+        if alts is not None:     # x = next(<elements>, fallback)  is  x = <an element> | x = fallback
             out = []
-            for s2, rv in self._inline(value, s):
+            for s2, v in alts:
+                out += self._assign(s2, targets, v, depth + 1)
+            return out
+        if isinstance(value, ast.Call) and depth < 4 and self._target(value, s) is not None:   # x = helper(...): walked in place
+            out = []
+            for s2, rv in self._inline(value, s, self._target(value, s)):
                 out += self._assign(s2, targets, rv if rv is not None else ast.Constant(value=None), depth + 1)
             return out
         if isinstance(value, ast.Tuple) and len(targets) == 1 and isinstance(targets[0], (ast.Tuple, ast.List)) and len(
@@ -636,6 +1021,7 @@ class Paths:
         d = self.derived(value, s)
         al = self._is_alias(value, s)
         dec = self._decision(value, s)
+        cl, el = self.classes_of(value, s), self._elems_expr(value, s)
         s = s.copy()
         for t_ in targets:
             self._assign_target(s, t_, k, d, al)
@@ -643,7 +1029,20 @@ class Paths:
         for t_ in targets:
             if isinstance(t_, ast.Name):
                 self._note(s, t_.id, dec, bound)
+                self._remember(s, t_.id, value, cl, el)
         return [s]
+
+    def _next_alts(self, value: ast.expr | None, s: PState) -> list[tuple[PState, ast.expr]] | None:
+        """next(<elements written in the source>[, fallback]): the element of each way one comes about, or the fallback"""
+        if not (isinstance(value, ast.Call) and call_name(value) == "next" and 1 <= len(value.args) <= 2 and not value.keywords):
+            return None
+        elems = self._iter_elems(value.args[0], s)
+        if elems is None or any(el is None for _, el in elems):
+            return None
+        out = [(x, el) for x, el in elems]
+        if len(value.args) == 2:
+            out.append((s, value.args[1]))
+        return out
 
     def _is_alias(self, e: ast.expr | None, s: PState) -> bool:
         """is e the subject itself"""
@@ -669,6 +1068,8 @@ class Paths:
             s.tfacts = tuple(x for x in s.tfacts if txt not in x[0])
             for nm in [nm for nm, (t2, _) in s.cond.items() if txt in t2]:
                 del s.cond[nm]
+            for nm in [nm for nm, e in s.means.items() if txt in norm(e)]:
+                del s.means[nm]
 
     def _bind(self, s: PState, name: str, k: tuple[str, int | None], d: bool, al: bool = False) -> None:
         s.kind[name] = k
@@ -679,6 +1080,62 @@ class Paths:
         s.tfacts = tuple(x for x in s.tfacts if name not in self._names.get(x[0], ()))
         for nm in [nm for nm, (t2, _) in s.cond.items() if nm == name or name in self._names.get(t2, ())]:
             del s.cond[nm]
+        for nm in [nm for nm, e in s.elems.items() if nm == name or name in self._elem_names(e)]:
+            del s.elems[nm]
+        s.classes.pop(name, None)
+        for nm in [nm for nm, e in s.means.items() if nm == name or name in self._elem_names(e)]:
+            del s.means[nm]
+
+    def _elem_names(self, e: ast.expr) -> set[str]:
+        k = f"elems@{id(e)}"
+        if k not in self._names:     # the names it reads from outside (a comprehension's own loop variables are its own)
+            own = {x.id for c in ast.walk(e) if isinstance(c, ast.comprehension) for x in ast.walk(c.target) if isinstance(x, ast.Name)}
+            self._names[k] = names_in(e) - own
+        return self._names[k]
+
+    def _remember(self, s: PState, name: str, value: ast.expr | None, classes: frozenset[str] | None, elems: ast.expr | None) -> None:
+        """after `name` was bound to value: what iterating it yields, which classes it may be"""
+        if elems is not None and name not in self._elem_names(elems):
+            s.elems[name] = elems
+        if classes:
+            s.classes[name] = classes
+        if isinstance(value, (ast.BoolOp, ast.Attribute, ast.Name, ast.Dict)) and name not in self._elem_names(value) and not any(
+                isinstance(x, (ast.Call, ast.NamedExpr, ast.Await)) for x in ast.walk(value)):
+            s.means[name] = value
+
+    def meaning(self, e: ast.expr, s: PState, depth: int = 0) -> ast.expr:
+        """e with the locals that merely stand for a choice between values (x = a or b; x = obj.field; x = y) replaced by that choice:
+        a value that was given a name, or handed to a helper as an argument, before it is used is still that value"""
+        if depth > 6:
+            return e
+        if isinstance(e, ast.Name) and e.id in s.means:
+            return self.meaning(s.means[e.id], s, depth + 1)
+        if isinstance(e, ast.BoolOp):
+            vals = [self.meaning(v, s, depth + 1) for v in e.values]
+            if any(a is not b for a, b in zip(vals, e.values)):
+                return self._made(ast.BoolOp(op=e.op, values=vals), e)
+        return e
+
+    def _elems_expr(self, e: ast.expr | None, s: PState) -> ast.expr | None:
+        """the expression that says what iterating e yields, if e is something whose elements are written in the source"""
+        if isinstance(e, ast.Name):
+            return s.elems.get(e.id)
+        if isinstance(e, (ast.GeneratorExp, ast.ListComp, ast.SetComp, ast.Tuple, ast.List, ast.Set)):
+            return e
+        if isinstance(e, ast.Call):
+            last = call_name(e).rsplit(".", 1)[-1]
+            if last in _SAME_ELEMENTS and e.args and all(self._elems_expr(a, s) is not None for a in e.args[:1 if last != "chain" else None]):
+                return e
+            if self._generator(e) is not None:
+                return e
+        return None
+
+    def _generator(self, c: ast.Call) -> Any:
+        """the generator of the region this call creates"""
+        if self.helpers is None:
+            return None
+        h, _ = self.helpers.targets.get(self.oid(c), (None, False))
+        return h if h is not None and h.qual in self.helpers.generators and h.qual not in self._active and len(self._active) < 3 else None
 
     # -- decisions ------------------------------------------------------------------------------------------------------------
     def _branch(self, e: ast.expr, s: PState) -> tuple[list[PState], list[PState]]:
@@ -715,7 +1172,11 @@ class Paths:
             cur = [s]
             for w in reversed(walrus):   # innermost first
                 cur = [y for x in cur for y in self._assign(x, [w.target], w.value)]
-            e = _Unwalrus().visit(ast.parse(norm(e), mode="eval").body)
+            holder = ast.Expr(value=copy.deepcopy(e))
+            for o, n_ in zip(ast.walk(e), ast.walk(holder.value)):
+                self._orig[id(n_)] = self.origin(o)
+            self._keep.append(holder)
+            e = ast.fix_missing_locations(_Unwalrus().visit(holder)).value
             t_all: list[PState] = []
             f_all: list[PState] = []
             for x in cur:
@@ -723,19 +1184,20 @@ class Paths:
                 t_all += t
                 f_all += f
             return t_all, f_all
-        if isinstance(e, ast.Call) and self._target(e) is not None:   # if helper(...): a helper that is one returned expression is that test
-            fn, binds = self._expand(e, self._target(e))
+        if isinstance(e, ast.Call) and self._target(e, s) is not None:   # if helper(...): a helper that is one returned expression is that test
+            h = self._target(e, s)
+            fn, binds = self._expand(e, h)
             body = [x for x in fn.body if not (isinstance(x, ast.Expr) and isinstance(x.value, ast.Constant))]
             if len(body) == 1 and isinstance(body[0], ast.Return) and body[0].value is not None:
                 s = self._bind_params(s, binds)
-                self._active.append(self._target(e).qual)
+                self._active.append(h.qual)
                 try:
                     return self._branch(body[0].value, s)
                 finally:
                     self._active.pop()
             # any other helper: walked in place, each of its returns decides with what it returns
             t_all, f_all = [], []
-            for s2, rv in self._inline(e, s):
+            for s2, rv in self._inline(e, s, h):
                 t, f = self._branch(rv if rv is not None else ast.Constant(value=None), s2)
                 t_all += t
                 f_all += f
@@ -804,6 +1266,29 @@ class Paths:
                         if not truth and o_truth and o_ext <= ext:
                             return None
                     s.tfacts = s.tfacts + ((stext, frozenset(tn), truth),)
+        elif isinstance(pos, ast.Call) and call_name(pos) == "issubclass" and len(pos.args) == 2 and isinstance(pos.args[0], ast.Name) \
+                and pos.args[0].id in s.classes and self.world is not None:
+            nm = pos.args[0].id
+            bases = [norm(x) for x in (pos.args[1].elts if isinstance(pos.args[1], ast.Tuple) else [pos.args[1]])]
+            verdicts = {k: [self.world.subclass(k, b) for b in bases] for k in s.classes[nm] if "." not in k}
+            if len(verdicts) == len(s.classes[nm]) and all(v is not None for vs in verdicts.values() for v in vs):
+                keep = frozenset(k for k, vs in verdicts.items() if any(vs) == truth)
+                if not keep:
+                    return None
+                s.classes[nm] = keep
+        elif isinstance(pos, ast.Compare) and len(pos.ops) == 1 and isinstance(pos.ops[0], (ast.Is, ast.Eq, ast.In)) and any(
+                isinstance(x, ast.Name) and x.id in s.classes for x in (pos.left, pos.comparators[0])):
+            # which class a computed receiver is: the candidates are narrowed, a test no candidate can pass / fail is not taken that way
+            l, r = pos.left, pos.comparators[0]
+            if not (isinstance(l, ast.Name) and l.id in s.classes) and not isinstance(pos.ops[0], ast.In):
+                l, r = r, l
+            others = [self.classes_of(x, s) for x in (r.elts if isinstance(pos.ops[0], ast.In) and isinstance(r, (ast.Tuple, ast.List, ast.Set)) else [r])]
+            if isinstance(l, ast.Name) and l.id in s.classes and others and all(o is not None and len(o) == 1 for o in others):
+                named = frozenset().union(*others)
+                keep = (s.classes[l.id] & named) if truth else (s.classes[l.id] - named)
+                if not keep:
+                    return None
+                s.classes[l.id] = keep
         elif isinstance(pos, ast.Compare) and len(pos.ops) == 1:
             op, l, r = pos.ops[0], pos.left, pos.comparators[0]
             if isinstance(op, ast.Is) and (_is_none(r) or _is_none(l)):
@@ -879,6 +1364,58 @@ def _conversion_outcome(pp: Paths, sites: set[int]) -> tuple[list[str], list[str
     return sorted(set(lost)), sorted(set(untested))
 
 
+def _dict_of(e: ast.AST) -> ast.expr | None:
+    """X for `X.__dict__` / `vars(X)`"""
+    if isinstance(e, ast.Attribute) and e.attr == "__dict__":
+        return e.value
+    if isinstance(e, ast.Call) and call_name(e) == "vars" and len(e.args) == 1:
+        return e.args[0]
+    return None
+
+
+def _inplace_default_writes(n: ast.AST) -> list[tuple[ast.AST, ast.expr, ast.expr | None]]:
+    """(the write, the object, the value | None) for every way the nodes under n change the `default` of an existing object in place:
+    <obj>.default = V (also augmented / annotated / deleted), setattr(<obj>, "default", V) / object.__setattr__(<obj>, "default", V) /
+    delattr, <obj>.__dict__["default"] = V / vars(<obj>)[...] = V, <obj>.__dict__.update(default=V / {"default": V})"""
+    out: list[tuple[ast.AST, ast.expr, ast.expr | None]] = []
+    for x in ast.walk(n):
+        if isinstance(x, (ast.Assign, ast.AnnAssign, ast.AugAssign, ast.Delete)):
+            value = getattr(x, "value", None)
+            for t in (x.targets if isinstance(x, (ast.Assign, ast.Delete)) else [x.target]):
+                for t_ in (ast.walk(t) if isinstance(t, (ast.Tuple, ast.List)) else [t]):
+                    if isinstance(t_, ast.Attribute) and t_.attr == "default" and (value is not None or isinstance(x, ast.Delete)):
+                        out.append((x, t_.value, value if not isinstance(t, (ast.Tuple, ast.List)) else None))
+                    elif isinstance(t_, ast.Subscript) and isinstance(t_.slice, ast.Constant) and t_.slice.value == "default" \
+                            and _dict_of(t_.value) is not None:
+                        out.append((x, _dict_of(t_.value), value))
+        elif isinstance(x, ast.Call):
+            last = call_name(x).rsplit(".", 1)[-1]
+            if last in ("setattr", "__setattr__", "delattr", "__delattr__") and len(x.args) >= 2 and isinstance(x.args[1], ast.Constant) \
+                    and x.args[1].value == "default":
+                out.append((x, x.args[0], x.args[2] if len(x.args) == 3 else None))
+            elif last == "update" and isinstance(x.func, ast.Attribute) and _dict_of(x.func.value) is not None:
+                vals = [kw.value for kw in x.keywords if kw.arg == "default"] + [
+                    v for a in x.args if isinstance(a, ast.Dict) for k, v in zip(a.keys, a.values) if isinstance(k, ast.Constant) and k.value == "default"]
+                out += [(x, _dict_of(x.func.value), v) for v in vals]
+    return out
+
+
+def _default_stores(pp: Paths) -> list[tuple[ast.stmt, ast.AST, ast.expr, ast.expr, PState]]:
+    """where an existing property gets a (new) default: (statement, the call / store, the property, the value, state in which the
+    value is evaluated) for every copy with an override evolve(<prop>, default=V) and every in-place write (_inplace_default_writes)
+    that was walked"""
+    out = []
+    for n, s in pp.stmts():
+        for c_ in _calls_of(n):
+            last = call_name(c_).rsplit(".", 1)[-1]
+            if last in _COPIES and c_.args and not isinstance(c_.args[0], ast.Starred):
+                out += [(n, c_, c_.args[0], kw.value, x) for kw in c_.keywords if kw.arg == "default" for x in pp.states_at(n, s, kw.value)]
+        for w, obj, v in _inplace_default_writes(n):
+            if v is not None:
+                out += [(n, w, obj, v, x) for x in pp.states_at(n, s, v)]
+    return out
+
+
 def run(rep: Report, ctx: Any) -> str:
     ix = ctx.py
     it, ji = ctx.flow
@@ -899,6 +1436,12 @@ def run(rep: Report, ctx: Any) -> str:
     rep.rule("R13.6", "allOf: when two members declare the same property the later declaration's default wins: the incoming property "
                       "reaches every _merge_common_attributes call as the last override (roles followed through the calls of the merge "
                       "module), overrides are applied in argument order and the override's converted default is preferred")
+
+    rep.rule("R13.8", "a property's default is given when the object is made (constructor / evolve keyword): wherever the package writes "
+                      "`default` of a property in place (attribute store, setattr / object.__setattr__, __dict__), the object is one the "
+                      "function made itself on every path to the write (followed through locals, helper parameters and helper results) - "
+                      "property objects are shared between the schemas that inherit them, a write in place changes another schema's "
+                      "declared default")
 
     props = ix.property_classes()
     by_name = {c.name: c for c in props}
@@ -923,7 +1466,7 @@ def run(rep: Report, ctx: Any) -> str:
         if b is None:
             continue
         params = [p.arg for p in b.params]
-        helpers = _helpers_of(ix, b)
+        helpers = _helpers_of(ix, b, c)
         reg_fns = [b, *helpers.values()]
         is_source = lambda n: isinstance(n, ast.Attribute) and norm(n) == "data.default" and "data" in params  # noqa: E731
         takes_default = "default" in params or any(is_source(n) for f in reg_fns for n in ast.walk(f.node))
@@ -932,9 +1475,9 @@ def run(rep: Report, ctx: Any) -> str:
         n_b += 1
         key = f"{c.name}.build"
         pp = Paths(b.node, tainted={"default"} & set(params), source=is_source, helpers=helpers, subject="default" if "default" in params else None,
-                   schema="data" if "data" in params else None, callee_of=callee_in(c))
+                   schema="data" if "data" in params else None, callee_of=callee_in(c), world=World(ix, b, helpers))
         handovers.append((key, b, pp))
-        conv = [n for f in reg_fns for n in ast.walk(f.node) if isinstance(n, ast.Call) and call_name(n).endswith("convert_value")]
+        conv = [x for x, _ in pp.sites.values()]     # the conversions met on the walk (in the builder or in what it delegates to)
         rep.check(bool(conv), "R13.1", key + "::converts", "the builder does not pass the default through convert_value", where(b, b.node),
                   lhs=[norm(x)[:50] for x in conv], rhs="convert_value(default)")
         if not conv:
@@ -962,8 +1505,8 @@ def run(rep: Report, ctx: Any) -> str:
         # registration (classes_by_name) only on paths where the result was found not to be an error
         regs: dict[int, tuple[ast.stmt, list[bool]]] = {}
         for n, s in pp.stmts():
-            if any(kw.arg == "classes_by_name" for c_ in _calls_of(n) for kw in c_.keywords):
-                regs.setdefault(pp.oid(n), (n, []))[1].append(bool(s.oks & sites))
+            for kw in [kw for c_ in _calls_of(n) for kw in c_.keywords if kw.arg == "classes_by_name"]:
+                regs.setdefault(pp.oid(n), (n, []))[1].extend(bool(x.oks & sites) for x in pp.states_at(n, s, kw.value))
         for n, oks in regs.values():
             rep.check(all(oks), "R13.1", key + "::registered-after-check", "the class is registered before its default has been validated",
                       where(b, n), lhs=norm(n)[:60], rhs="only on paths where the converted default was tested and is no error")
@@ -972,9 +1515,10 @@ def run(rep: Report, ctx: Any) -> str:
         for n, s in pp.stmts():
             for c_ in _calls_of(n):
                 if call_name(c_).rsplit(".", 1)[-1] in ("cls", "evolve", c.name):
-                    stored += [(kw.value, s) for kw in c_.keywords if kw.arg == "default"]
-            if isinstance(n, ast.Assign) and any(isinstance(t, ast.Attribute) and t.attr == "default" for t in n.targets):
-                stored.append((n.value, s))
+                    stored += [(kw.value, x) for kw in c_.keywords if kw.arg == "default" for x in pp.states_at(n, s, kw.value)]
+            for _, _, v_ in _inplace_default_writes(n):     # a store to .default, setattr, __dict__
+                if v_ is not None:
+                    stored += [(v, x) for v in _arms(v_) for x in pp.states_at(n, s, v)]
         final = [(v, s) for v, s in stored if not _is_none(v)]
         bad = [norm(v)[:40] for v, s in final if not (pp.kind_of(v, s)[0] == "valid" and pp.kind_of(v, s)[1] in sites)]
         rep.check(bool(final) and not bad, "R13.1", key + "::stores-converted",
@@ -986,17 +1530,20 @@ def run(rep: Report, ctx: Any) -> str:
     # asked of property_from_data (with its private helpers walked in place) and of every builder above: the builder calls whose
     # result is what the function returns on some path (directly, through a local, as the first element of the returned pair)
     p_params = [p.arg for p in pfd.params]
+    p_helpers = _helpers_of(ix, pfd)
     handovers.append((pfd.name, pfd, Paths(
-        pfd.node, source=lambda n: isinstance(n, ast.Attribute) and norm(n) == "data.default" and "data" in p_params, helpers=_helpers_of(ix, pfd),
-        schema="data" if "data" in p_params else None, callee_of=callee_in(None))))
+        pfd.node, source=lambda n: isinstance(n, ast.Attribute) and norm(n) == "data.default" and "data" in p_params, helpers=p_helpers,
+        schema="data" if "data" in p_params else None, callee_of=callee_in(None), world=World(ix, pfd, p_helpers))))
     n_h = 0
     for root, f, pp in handovers:
         returned = {k for n, s in pp.returns() for tag, k in [pp.returned(n, s)] if tag == "deleg"}
-        for k in sorted(returned, key=lambda k_: getattr(pp.delegs[k_][0], "lineno", 0)):
+        for k, computed in sorted({(k_, t) for k_ in returned for _, _, _, t in pp.delegs[k_][1]},
+                                  key=lambda kt: (getattr(pp.delegs[kt[0]][0], "lineno", 0), kt[1] or "")):
             call, verdicts = pp.delegs[k]
+            verdicts = {(ok_, param, arg) for ok_, param, arg, t in verdicts if t == computed}
             n_h += 1
             h = pp.callee_of(call)      # the key names the builder (a class / function of the repository), never a local
-            target = (f"{h.cls.name}.{h.name}" if h.cls is not None else h.name) if h is not None else "<computed>.build"
+            target = computed or ((f"{h.cls.name}.{h.name}" if h.cls is not None else h.name) if h is not None else "<computed>.build")
             bad = sorted({(param, arg) for ok_, param, arg in verdicts if not ok_})
             frozen = [HANDOVER_EXCEPTIONS.get((root, target, param, arg)) for param, arg in bad]
             if bad and all(frozen):
@@ -1099,19 +1646,27 @@ def run(rep: Report, ctx: Any) -> str:
 
     # ---- R13.4 ------------------------------------------------------------------------------------------------------------------
     pfr = ix.func("properties._property_from_ref")
-    pl = Locals(pfr.node)
-    # the referenced class: what was looked up in schemas.classes_by_reference (by .get / subscript)
-    existing = set(pl.bound_from(lambda v: ".classes_by_reference.get(" in v or ".classes_by_reference[" in v, "assign"))
-    pp = Paths(pfr.node, source=lambda n: isinstance(n, ast.Attribute) and norm(n) == "parent.default", helpers=_helpers_of(ix, pfr))
+    # the referenced class: what was looked up in schemas.classes_by_reference (by .get / subscript), followed as a role of its own
+    # through locals, helper parameters and helper results
+    def looked_up(n: ast.AST) -> str | None:
+        if isinstance(n, ast.Call) and isinstance(n.func, ast.Attribute) and n.func.attr in ("get", "pop", "setdefault"):
+            n = n.func.value
+        elif isinstance(n, ast.Subscript):
+            n = n.value
+        else:
+            return None
+        return "refclass" if isinstance(n, ast.Attribute) and n.attr == "classes_by_reference" else None
+
+    pp = Paths(pfr.node, source=lambda n: isinstance(n, ast.Attribute) and norm(n) == "parent.default", helpers=_helpers_of(ix, pfr),
+               mark=looked_up)
     # conversions of parent.default by the referenced class, in the function or in a helper walked in place
-    sites = {k for k, (c_, from_default) in pp.sites.items() if from_default and all(
-        isinstance(w.func, ast.Attribute) and w.func.attr == "convert_value" and norm(w.func.value) in existing for w in pp.walked[k])}
+    sites = {k for k, (c_, from_default) in pp.sites.items() if from_default and pp.receivers.get(k) == {"refclass"}}
     rep.check(bool(sites), "R13.4", "_property_from_ref::converts-with-referenced-class",
               "the wrapper's default is not converted by the referenced class", where(pfr, pfr.node))
-    # every path that reaches the evolve(): no wrapper (parent is None), or the default is the conversion of parent.default
-    evolves = [(n, c_, kw.value, s) for n, s in pp.stmts() for c_ in _calls_of(n) if call_name(c_).endswith("evolve")
-               and c_.args and norm(c_.args[0]) in existing for kw in c_.keywords if kw.arg == "default"]
-    rep.require(evolves, "evolve(<referenced class>, default=...) in _property_from_ref")
+    # every path that reaches the place where the property gets its default (evolve(<referenced class>, default=...), a store to its
+    # .default): no wrapper (parent is None), or the default is the conversion of parent.default
+    evolves = [(n, c_, d, x) for n, c_, recv, d, x in _default_stores(pp) if pp.kind_of(recv, x)[0] == "refclass"]
+    rep.require(evolves, "the place where the property made from the referenced class gets its default in _property_from_ref")
     skipped = sorted({", ".join(sorted(f"{t}={v}" for t, v in s.facts.items() if "parent" in t)) for n, c_, d, s in evolves
                       if not s.facts.get("parent is None") and pp.kind_of(d, s)[1] not in sites})
     rep.check(not skipped, "R13.4", "_property_from_ref::conversion-guard",
@@ -1126,15 +1681,15 @@ def run(rep: Report, ctx: Any) -> str:
 
     mca = ix.func("merge_properties._merge_common_attributes")
     pm = Paths(mca.node, helpers=_helpers_of(ix, mca))
-    # every value flowing into evolve(<merged>, default=...) is <merged>.default or the tested <merged>.convert_value(...) on that path
-    m_evolves = [(n, c_, kw.value, s) for n, s in pm.stmts() for c_ in _calls_of(n) if call_name(c_).endswith("evolve")
-                 and c_.args for kw in c_.keywords if kw.arg == "default"]
-    rep.require(m_evolves, "evolve(<merged>, default=...) in _merge_common_attributes")
+    # every value that becomes the merged property's default (evolve(<merged>, default=...), a store to <merged>.default) is
+    # <merged>.default or the tested <merged>.convert_value(...) on that path
+    m_evolves = [(n, recv, d, x) for n, c_, recv, d, x in _default_stores(pm)]
+    rep.require(m_evolves, "the place where the merged property gets its default in _merge_common_attributes")
     bad_m: set[str] = set()
     m_sites: set[int] = set()
-    for n, c_, d, s in m_evolves:
-        acc = norm(c_.args[0])
-        for o in _operands(d):
+    for n, recv_, d, s in m_evolves:
+        acc = norm(recv_)
+        for o in _operands(pm.meaning(d, s)):
             if _is_none(o) or norm(o) == f"{acc}.default":
                 continue
             tag, site = pm.kind_of(o, s)
@@ -1149,13 +1704,15 @@ def run(rep: Report, ctx: Any) -> str:
               f"a default enters the merged property without being converted by the merged class: {sorted(bad_m)}", where(mca, m_evolves[0][0]),
               lhs=sorted(bad_m), rhs="current.convert_value(override.default.raw_value) | current.default")
     lost, untested = _conversion_outcome(pm, m_sites)
-    raw = sorted({norm(o) for n, c_, d, s in m_evolves for o in _operands(d) if pm.kind_of(o, s)[1] in m_sites and pm.kind_of(o, s)[0] == "conv"})
+    raw = sorted({norm(o) for n, recv_, d, s in m_evolves for o in _operands(pm.meaning(d, s)) if pm.kind_of(o, s)[1] in m_sites and pm.kind_of(o, s)[0] == "conv"})
     tested = any(s.errs & m_sites for n, s in pm.returns())
     rep.check(tested and not lost and not untested and not raw, "R13.4", "_merge_common_attributes::error-returned",
               "an override default invalid for the merged type is not reported", where(mca, mca.node), lhs=lost + untested + raw,
               rhs="every path: a conversion error is returned, evolve() gets a tested result")
 
     _override_order(rep, ix, mca, pm, m_evolves)
+
+    _no_inplace_default(rep, ix, it, props)
 
     # ---- R13.5 ----------------------------------------------------------------------------------------------------------------------
     ts = ix.cls("PropertyProtocol").methods.get("to_string")
@@ -1179,6 +1736,75 @@ def run(rep: Report, ctx: Any) -> str:
         rep.indexed["to_string_default_emissions"] = n_ts
     rep.not_decided.append("value equality of the evaluated default with the document's value; leniency inside accepting branches")
     return LEVEL
+
+
+# ---- R13.8 -----------------------------------------------------------------------------------------------------------------------
+def _no_inplace_default(rep: Report, ix: Any, it: Any, props: list[Any]) -> None:
+    prop_quals = {c.qual for c in props} | {ix.cls("PropertyProtocol").qual}
+    is_prop_class = lambda k: k is not None and any(m.qual in prop_quals for m in ix.mro(k))  # noqa: E731
+    writes: dict[int, tuple[Any, ast.AST, ast.expr]] = {}      # every write of the package's source: id -> (function, write, object)
+    holders: set[str] = set()
+    n_fns = 0
+    for f in ix.all_functions:
+        n_fns += 1
+        for w, obj, _ in _inplace_default_writes(f.node):
+            if any(w is x for x in _own_nodes(f.node)):
+                av = it.node_av.get(id(obj))
+                known = {t for t in av.types} if av is not None else set()
+                if known and not (known & prop_quals) and all(t in ix.classes or "." not in t for t in known):
+                    continue     # the flow interpretation knows what it is, and it is no property (a document model, a builtin)
+                if norm(obj) in ("self", "cls") and f.cls is not None and not is_prop_class(f.cls):
+                    continue     # a class that is no property writes its own field
+                writes[id(w)] = (f, w, obj)
+                holders.add(f.qual)
+    rep.floor("functions_scanned_for_default_writes", n_fns, 80)
+    verdicts: dict[int, list[tuple[bool, str]]] = {}
+
+    def made_here(n: ast.AST) -> str | None:
+        """a new object: a constructor call, a copy (evolve / replace / copy / deepcopy / model_copy)"""
+        if isinstance(n, ast.Call):
+            cn = call_name(n)
+            last = cn.rsplit(".", 1)[-1]
+            if last in _COPIES or cn == "cls" or last in ("__new__",) or (cn.split(".")[0] != "self" and (
+                    last[:1].isupper() and any(k.name == last for k in ix.classes.values()))):
+                return "fresh"
+        return None
+
+    walked_in: set[str] = set()       # holders that were met on the walk of a function that calls them
+    if writes:
+        for f in ix.all_functions:
+            if isinstance(f.node, ast.AsyncFunctionDef):
+                continue
+            hs = Helpers(ix, f)
+            inside = {h.qual for h in hs.funcs if h.qual in holders}
+            if f.qual not in holders and not inside:
+                continue
+            pp = Paths(f.node, helpers=hs, mark=made_here)
+            own_init = f.name in ("__init__", "__attrs_post_init__", "__post_init__", "__new__")
+            for n, s in pp.stmts():
+                for w, obj, _ in _inplace_default_writes(n):
+                    k = pp.oid(w)
+                    if k not in writes:
+                        continue
+                    g = writes[k][0]
+                    if g.qual != f.qual:
+                        walked_in.add(g.qual)
+                    kind = pp.kind_of(obj, s)[0]
+                    ok = kind == "fresh" or (own_init and norm(obj) == "self")
+                    verdicts.setdefault(k, []).append((ok, f.qual, f"{norm(obj)} is {'an object made here' if ok else 'not made here (' + kind + ')'} in {f.name}"))
+    for k, (g, w, obj) in sorted(writes.items(), key=lambda kv: (kv[1][0].qual, getattr(kv[1][1], "lineno", 0))):
+        got = verdicts.get(k, [])
+        # what a helper is handed is judged where it is called; the helper taken alone counts only when nobody was found calling it
+        if g.qual in walked_in:
+            got = [v for v in got if v[1] != g.qual]
+        bad = sorted({why for ok, _, why in got if not ok})
+        rep.check(bool(got) and not bad, "R13.8", f"{g.qual.replace(PKG + '.', '')}::default-set-in-place",
+                  f"`default` of an existing object is changed in place ({norm(w)[:70]}): the object may be shared with the schema it was "
+                  "inherited from (and every other schema that inherits it), whose declared default changes with it",
+                  where(g, w), lhs=bad or (sorted({why for _, _, why in got}) if got else "the write was not reached by the walk"),
+                  rhs="evolve(<prop>, default=...) | a write to an object the function made itself")
+    if not writes:
+        rep.ok("R13.8", "package::no-in-place-default", n_fns, "no in-place write of a property's default in the package")
 
 
 # ---- R13.6 -----------------------------------------------------------------------------------------------------------------------
@@ -1327,8 +1953,9 @@ def _override_order(rep: Report, ix: Any, sink: Any, pm: Paths, m_evolves: list)
     in_order = all(norm(n.iter) in (va, f"enumerate({va})") for n in loops)
     rep.check(in_order, "R13.6", "_merge_common_attributes::applied-in-order", "the overrides are not applied in argument order",
               where(sink, loops[0] if isinstance(loops[0], ast.stmt) else sink.node), lhs=[norm(n.iter) for n in loops], rhs=f"for _ in {va}")
-    for n, c_, d, st in m_evolves[:1]:
-        acc = f"{norm(c_.args[0])}.default"
+    for n, recv_, d, st in m_evolves[:1]:
+        acc = f"{norm(recv_)}.default"
+        d = pm.meaning(d, st)
         ok = False
         if isinstance(d, ast.BoolOp) and isinstance(d.op, ast.Or):
             ok = norm(d.values[-1]) == acc and all(norm(v) != acc for v in d.values[:-1])
